@@ -136,9 +136,11 @@ class Method(Variable):  # i.e. TypeBound procedure
                 link_obj = find_in_scope(self.parent, self.link_name, obj_tree)
             if link_obj is not None and not self.is_linked_from(link_obj):
                 self.link_obj = link_obj
-                if self.pass_name is not None:
+                # The target of the binding need not be a procedure
+                args_snip = getattr(link_obj, "args_snip", None)
+                if self.pass_name is not None and args_snip is not None:
                     self.pass_name = self.pass_name.lower()
-                    for i, arg in enumerate(link_obj.args_snip.split(",")):
+                    for i, arg in enumerate(args_snip.split(",")):
                         if arg.lower() == self.pass_name:
                             self.drop_arg = i
                             break
